@@ -54,6 +54,8 @@ func main() {
 	count := flag.Bool("count", false, "print the number of cases and exit")
 	witness := flag.String("witness", "", "JSON file with []core.Finding to run as pinned witnesses")
 	metaFlag := flag.Bool("meta", false, "print property metadata as JSON and exit")
+	shrink := flag.Int("shrink", -1, "developer: shrink case idx while the failure text still contains -match")
+	match := flag.String("match", "", "substring for -shrink")
 	flag.Parse()
 
 	p := core.Lookup(*prop)
@@ -70,6 +72,16 @@ func main() {
 			"id": p.ID(), "level": p.Level(), "rule": p.Rule(), "block_size": p.BlockSize(),
 			"assumptions": p.Assumptions(), "min_events": p.MinEvents(), "num_cases": p.NumCases(*tier, *seed),
 		})
+		return
+	}
+	if *shrink >= 0 {
+		if sh, ok := p.(interface {
+			Shrink(tier string, seed int64, idx int, match string) string
+		}); ok {
+			fmt.Println(sh.Shrink(*tier, *seed, *shrink, *match))
+		} else {
+			fmt.Println("property has no shrinker")
+		}
 		return
 	}
 	if *describe >= 0 {
